@@ -179,9 +179,9 @@ def _tempo(draw, src, n, mid, first_bpm=None):
 
 
 @st.composite
-def case_st(draw, tier):
+def case_st(draw, tier, pair=None):
     big = tier == "thorough"
-    src, dst = draw(st.sampled_from(PAIRS))
+    src, dst = pair or draw(st.sampled_from(PAIRS))
     classes = ["mild"] * 6
     if src not in MS_FORMATS:
         classes += ["mid"] * 2
@@ -707,7 +707,7 @@ class _Tol:
 
     def ok(self, got, exp, slack=1.0):
         if self.kind == "ms":
-            return abs(got - exp) <= 1.0 + 1e-9
+            return abs(got - exp) <= 1.0 + 1e-6 * max(1.0, abs(exp))
         if self.kind == "exact" or self.tl is None:
             return abs(got - exp) <= slack * 1e-6 * max(1.0, abs(exp))
         return abs(self.tl.beat_of(got) - self.tl.beat_of(exp)) <= BEAT_TOL + 1e-7
@@ -849,8 +849,29 @@ def _cmp_svs(ctx, got, exp):
             return
 
 
+def _known_smtoosu_keys(case, f):
+    """SMToOsu leaves CircleSize at 4 (proposed_fixes/C09_smtoosu_keys.md)"""
+    return case["src"] == "sm" and case["dst"] == "osu" and any(c["keys"] != 4 for c in case["charts"])
+
+
+def _known_sm_pad_width(case, f):
+    """SMMap.write pads empty measures with '0000' whatever the key count (proposed_fixes/C03_pad_width.md)"""
+    if case["dst"] != "sm" or all(c["keys"] == 4 for c in case["charts"]):
+        return False
+    return "row-width-mixed" in f.msg or ("row widths [" in f.msg and "4" in f.msg.split("row widths")[-1])
+
+
+KNOWN_PREDICATES = {"smtoosu_keys": _known_smtoosu_keys, "sm_pad_width": _known_sm_pad_width}
+
+
+def _pair_strategy(pair):
+    return lambda tier: case_st(tier, pair)
+
+
+# one sub-check per converter pair: the 16 pairs get the same number of cases, and failures are bucketed per pair
 SUBS = [
-    Sub("pipeline", check, strategy=case_st, examples={"quick": 110, "thorough": 1400}, shards={"quick": 16, "thorough": 16}),
+    Sub(f"{s_}->{d_}", check, strategy=_pair_strategy((s_, d_)), examples={"quick": 110, "thorough": 700}, shards={"quick": 1, "thorough": 4})
+    for s_, d_ in PAIRS
 ]
 
 MANIFEST = dict(
